@@ -3189,6 +3189,8 @@ class PlateSlicer(Slicer):
 
             frm_array = [frm]
             to.apply(helper_func)
+            if frm_array[0] is frm:
+                frm_array[0] = deepcopy(frm)  # (a selection of no wells: what is returned is never the argument itself)
             return frm_array[0], to.plate
         if not isinstance(frm, (Plate, PlateSlicer)):
             raise TypeError("Invalid source type.")
